@@ -139,8 +139,10 @@ func (e *Encoder) writeBuf(payload *bytes.Buffer, pk reflect.Type) (n int, err e
 
 func (e *Encoder) writeCompressed(payload *bytes.Buffer, pk any) (n int, err error) {
 	uncompressedSize := payload.Len()
-	if uncompressedSize < e.compression.threshold {
-		// Under the threshold, there is nothing to do.
+	if uncompressedSize < e.compression.threshold || uncompressedSize == 0 {
+		// Under the threshold, there is nothing to do. An empty payload is never
+		// compressed either: a data length of 0 means "not compressed" on the wire,
+		// so with a threshold of 0 the reader would take the zlib stream for the payload.
 		n, err = util.WriteVarIntN(e.wr, uncompressedSize+1) // packet length
 		if err != nil {
 			return n, err
